@@ -40,7 +40,7 @@ ASSUMPTIONS = [
 
 def run(ctx: Ctx):
   m = model(ctx)
-  for r in (r1, r2, r3, r4, r5, r6, r8, r9, r10, r11):
+  for r in (r1, r2, r3, r4, r5, r6, r8, r9, r10, r11, r12):
     ctx.guard(r, m)
   ctx.include('R-C11-7', '"a freshly created (empty) state is a neutral element'
               ' on either side": merge combines every accumulated statistic on'
@@ -295,6 +295,18 @@ def r5(ctx: Ctx, m):
     first = None
     itname = None
     for x in walk_no_nested(fi.node):
+      # the one-pass stream of states: iter(states), or the states minus the empty marker None
+      # (`(s for s in states if s is not None)`: dropping None states loses nothing)
+      if isinstance(x, ast.Assign) and isinstance(x.targets[0], ast.Name):
+        ge = x.value
+        if isinstance(ge, ast.Call) and unparse(ge.func) == 'iter' and len(ge.args) == 1 and isinstance(ge.args[0], ast.GeneratorExp):
+          ge = ge.args[0]
+        if isinstance(ge, ast.GeneratorExp) and len(ge.generators) == 1 and unparse(ge.generators[0].iter) == states and (
+            unparse(ge.elt) == unparse(ge.generators[0].target)) and all(
+                isinstance(c, ast.Compare) and len(c.ops) == 1 and isinstance(c.ops[0], ast.IsNot) and unparse(c.left) == unparse(ge.elt)
+                and isinstance(c.comparators[0], ast.Constant) and c.comparators[0].value is None
+                for c in ge.generators[0].ifs):
+          itname = x.targets[0].id
       if isinstance(x, ast.Assign) and isinstance(x.value, ast.Call):
         fn = unparse(x.value.func)
         if fn == 'iter' and x.value.args and unparse(x.value.args[0]) == states:
@@ -676,6 +688,54 @@ def r11(ctx: Ctx, m):
   ctx.floor(rule, 1, n)
 
 
+def r12(ctx: Ctx, m):
+  rule = 'R-C11-12'
+  ctx.rule(rule, '"a freshly created (empty) state is a neutral element on either side": an AggregateFn whose empty state is the'
+           ' marker None (it keeps the base create_state(), and its update_state tests the state for None / truth before'
+           ' combining) applies the same convention in merge_states: the states it folds are filtered or tested for None'
+           ' before they are combined. A shard that saw no batch contributes None; `result += None` / `None += state`'
+           ' raises TypeError, so the merge of sharded runs fails whenever one shard is empty')
+  n = 0
+  for ci in m.classes:
+    upd = ci.methods.get('update_state')
+    mrg = ci.methods.get('merge_states')
+    if upd is None or mrg is None or m._is_abstract(mrg):
+      continue
+    cs = m.method_of(ci, 'create_state')
+    none_marker = cs is None or cs.cls is not ci and all(
+        isinstance(r, ast.Return) and (r.value is None or (isinstance(r.value, ast.Constant) and r.value.value is None))
+        for r in ast.walk(cs.node) if isinstance(r, ast.Return))
+    if cs is not None and cs.cls is ci:
+      none_marker = all((r.value is None or (isinstance(r.value, ast.Constant) and r.value.value is None))
+                        for r in ast.walk(cs.node) if isinstance(r, ast.Return))
+    if not none_marker:
+      continue
+    sp = upd.params()[1] if len(upd.params()) > 1 else None
+    if sp is None:
+      continue
+    from mlmverif.props.c17 import _truth_positions
+    tests_state = any((isinstance(t, ast.Name) and t.id == sp) for t in _truth_positions(upd.node)) or any(
+        isinstance(c, ast.Compare) and isinstance(c.left, ast.Name) and c.left.id == sp and isinstance(c.ops[0], (ast.Is, ast.IsNot))
+        for c in ast.walk(upd.node))
+    if not tests_state:
+      continue
+    n += 1
+    none_tests = [c for c in ast.walk(mrg.node) if (isinstance(c, ast.Compare) and isinstance(c.ops[0], (ast.Is, ast.IsNot))
+                                                    and isinstance(c.left, ast.Name)
+                                                    and isinstance(c.comparators[0], ast.Constant) and c.comparators[0].value is None)
+                  or (isinstance(c, ast.Call) and unparse(c.func) == 'filter' and c.args and unparse(c.args[0]) == 'None')]
+    what = f'{ci.name}.merge_states treats the empty state (None) like {ci.name}.update_state does'
+    if none_tests:
+      ctx.ok(rule, mrg, what, none_tests[0])
+    else:
+      ctx.fail(rule, mrg, what,
+               f'{ci.name}.update_state tests its state for None / truth (the empty state of this aggregate IS None: create_state'
+               f' is the base one), but {ci.name}.merge_states combines the states it is given without such a test: merging'
+               ' the state of a shard that saw no batch raises TypeError instead of leaving the other states unchanged',
+               node=mrg.node)
+  ctx.floor(rule, 1, n)
+
+
 def _is_emptiness(t: ast.AST, flags: set) -> bool:
   while isinstance(t, ast.UnaryOp) and isinstance(t.op, ast.Not):
     t = t.operand
@@ -696,6 +756,12 @@ _R = 'aggregates/rolling_stats.py'
 _U = 'aggregates/utils.py'
 _T = 'aggregates/retrieval.py'
 VARIANTS = [
+    B('revert-merge-states-without-none-filter', 'aggregates/classification.py',
+      "    iter_acc = (state for state in states if state is not None)\n    result = next(iter_acc, None)",
+      "    iter_acc = iter(states)\n    result = next(iter_acc)", 'R-C11-12'),
+    OK('merge-states-filters-none-with-a-loop-test', 'aggregates/classification.py',
+       "    iter_acc = (state for state in states if state is not None)\n    result = next(iter_acc, None)\n    for accumulator in iter_acc:\n      result += accumulator",
+       "    iter_acc = iter(states)\n    result = next(iter_acc, None)\n    for accumulator in iter_acc:\n      if accumulator is None:\n        continue\n      if result is None:\n        result = accumulator\n        continue\n      result += accumulator"),
     B('samplewise-merge-iterates-raw-config', 'aggregates/classification.py',
       '    for key, value in other.state.items():\n      self._state[key].merge(value)',
       '    for metric in self.metrics:\n      self._state[metric].merge(other.state[metric])', 'R-C11-10'),
